@@ -318,6 +318,37 @@ Lemma lnot16_hi_lo c : is_u16 c ->
   w8 (lnot16 c / 2^8) = lnot16 c / 256 /\ w8 (lnot16 c) = lnot16 c mod 256.
 Proof. unfold is_u16, lnot16, w8. change (2^8) with 256. intros H. split; Z.div_mod_to_equations; lia. Qed.
 
+(* the field sendUDP stores (RFC 768): a computed checksum of zero goes out as all ones *)
+Definition udp_field (ck : Z) : Z := if ck =? 0 then 65535 else ck.
+
+Lemma udp_field_u16 ck : is_u16 ck -> is_u16 (udp_field ck) /\ udp_field ck <> 0.
+Proof. unfold udp_field, is_u16. intros H. destruct (Z.eqb_spec ck 0); lia. Qed.
+
+(* [verify_general] for that field: 0xffff is the other representation of one's-complement zero, so
+   the datagram still sums to 0xffff *)
+Lemma verify_general_udp pre A rest T :
+  bytes_ok pre -> bytes_ok A -> bytes_ok rest ->
+  Nat.even (length pre) = true -> Nat.even (length A) = true ->
+  T = ws pre + ws (A ++ 0 :: 0 :: rest) ->
+  let f := udp_field (lnot16 (oc_norm T)) in
+  rfc1071_sum (pre ++ A ++ (f / 256) :: (f mod 256) :: rest) 0 = 65535.
+Proof.
+  intros Hp HA Hr Ep EA HT f. subst f. unfold udp_field.
+  destruct (Z.eqb_spec (lnot16 (oc_norm T)) 0) as [E0|_]; [|apply verify_general; assumption].
+  change (65535 / 256) with 255. change (65535 mod 256) with 255.
+  assert (H0 : bytes_ok (A ++ 0 :: 0 :: rest)).
+  { apply Forall_app; split; [exact HA|]. repeat constructor; try (unfold is_byte; lia). exact Hr. }
+  assert (HT0 : 0 <= T) by (pose proof (ws_nonneg _ Hp); pose proof (ws_nonneg _ H0); lia).
+  rewrite rfc_ws.
+  - rewrite ws_app_even by exact Ep. rewrite ws_field by exact EA.
+    replace (ws pre + (ws (A ++ 0 :: 0 :: rest) + (255 * 256 + 255))) with (T + 65535) by lia.
+    unfold lnot16 in E0. revert E0. unfold oc_norm.
+    destruct (Z.eqb_spec T 0) as [->|Hne]; [discriminate|].
+    destruct (Z.eqb_spec (T + 65535) 0) as [|_]; [lia|]. intros E0. Z.div_mod_to_equations. lia.
+  - apply Forall_app; split; [exact Hp|]. apply Forall_app; split; [exact HA|].
+    constructor; [unfold is_byte; lia|constructor; [unfold is_byte; lia|exact Hr]].
+Qed.
+
 (* ====================================================================== flat forms of the encoders
    Every header is encoded into a fresh zeroed buffer; on such a buffer the Encode models reduce
    to the byte strings below. *)
@@ -599,6 +630,39 @@ Lemma xsum_verifies6 src dst nh L A rest :
 Proof.
   intros Ls Ld Bs Bd Hp HL BA Br EA ck. unfold Rfc.sums_to_ffff. apply Z.eqb_eq.
   subst ck. unfold xsum_of. apply verify_general; try assumption.
+  - unfold Rfc.pseudo6. apply Forall_app; split; [exact Bs|]. apply Forall_app; split; [exact Bd|].
+    repeat (apply Forall_cons; [unfold is_byte; Z.div_mod_to_equations; lia|]). apply Forall_nil.
+  - unfold Rfc.pseudo6. rewrite !app_length, Ls, Ld. reflexivity.
+  - unfold Rfc.pseudo6. rewrite (ws_app_even src) by (apply even16; assumption). rewrite (ws_app_even dst) by (apply even16; assumption).
+    rewrite ws8. Z.div_mod_to_equations. lia.
+Qed.
+
+(* the same for the UDP field (zero replaced by 0xffff) *)
+Lemma xsum_verifies4_udp src dst proto L A rest :
+  length src = 4%nat -> length dst = 4%nat -> bytes_ok src -> bytes_ok dst ->
+  0 <= proto < 256 -> 0 <= L < 65536 ->
+  bytes_ok A -> bytes_ok rest -> Nat.even (length A) = true ->
+  let ck := udp_field (xsum_of src dst proto L (A ++ 0 :: 0 :: rest)) in
+  Rfc.sums_to_ffff (Rfc.pseudo4 src dst proto L ++ A ++ (ck / 256) :: (ck mod 256) :: rest) = true.
+Proof.
+  intros Ls Ld Bs Bd Hp HL BA Br EA ck. unfold Rfc.sums_to_ffff. apply Z.eqb_eq.
+  subst ck. unfold xsum_of. apply verify_general_udp; try assumption.
+  - unfold Rfc.pseudo4. apply Forall_app; split; [exact Bs|]. apply Forall_app; split; [exact Bd|].
+    repeat (apply Forall_cons; [unfold is_byte; Z.div_mod_to_equations; lia|]). apply Forall_nil.
+  - unfold Rfc.pseudo4. rewrite !app_length, Ls, Ld. reflexivity.
+  - unfold Rfc.pseudo4. rewrite (ws_app_even src) by (apply even4; assumption). rewrite (ws_app_even dst) by (apply even4; assumption).
+    rewrite ws4. Z.div_mod_to_equations. lia.
+Qed.
+
+Lemma xsum_verifies6_udp src dst nh L A rest :
+  length src = 16%nat -> length dst = 16%nat -> bytes_ok src -> bytes_ok dst ->
+  0 <= nh < 256 -> 0 <= L < 65536 ->
+  bytes_ok A -> bytes_ok rest -> Nat.even (length A) = true ->
+  let ck := udp_field (xsum_of src dst nh L (A ++ 0 :: 0 :: rest)) in
+  Rfc.sums_to_ffff (Rfc.pseudo6 src dst nh L ++ A ++ (ck / 256) :: (ck mod 256) :: rest) = true.
+Proof.
+  intros Ls Ld Bs Bd Hp HL BA Br EA ck. unfold Rfc.sums_to_ffff. apply Z.eqb_eq.
+  subst ck. unfold xsum_of. apply verify_general_udp; try assumption.
   - unfold Rfc.pseudo6. apply Forall_app; split; [exact Bs|]. apply Forall_app; split; [exact Bd|].
     repeat (apply Forall_cons; [unfold is_byte; Z.div_mod_to_equations; lia|]). apply Forall_nil.
   - unfold Rfc.pseudo6. rewrite !app_length, Ls, Ld. reflexivity.
@@ -988,7 +1052,7 @@ Lemma send_udp_flat r data sp dp :
   8 + vsize data <= 65535 ->
   let L := 8 + vsize data in
   let ck := xsum_of (rLocal r) (rRemote r) 17 L (udp_hdr sp dp L 0 ++ concat data) in
-  send_udp r data sp dp = Some (udp_hdr sp dp L ck) /\ is_u16 ck.
+  send_udp r data sp dp = Some (udp_hdr sp dp L (udp_field ck)) /\ is_u16 ck.
 Proof.
   intros Hoff Bs Bd Ls Ld Bdata Hev Hsz L ck.
   assert (Hvs : 0 <= vsize data) by (unfold vsize; lia).
@@ -1015,8 +1079,9 @@ Proof.
       pose proof (ws_nonneg _ BH). pose proof (ws_nonneg (concat data) (Forall_concat _ _ Bdata)). subst L. lia. }
     pose proof (oc_norm_u16 _ HT) as Hn. unfold lnot16, is_u16 in *. lia. }
   split; [|exact Hu].
+  fold (udp_field ck). destruct (udp_field_u16 ck Hu) as [Hf _]. set (fk := udp_field ck) in *.
   unfold udp_setChecksum, put16. subst H0. cbn [upd obind].
-  assert (Ehl : w8 (ck / 2 ^ 8) = ck / 256 /\ w8 ck = ck mod 256).
+  assert (Ehl : w8 (fk / 2 ^ 8) = fk / 256 /\ w8 fk = fk mod 256).
   { unfold w8, is_u16 in *. change (2^8) with 256. split; Z.div_mod_to_equations; lia. }
   destruct Ehl as [-> ->]. reflexivity.
 Qed.
@@ -1048,16 +1113,15 @@ Lemma udp_hdr_split sp dp L ck payload :
   [w8 (sp / 2^8); w8 sp; w8 (dp / 2^8); w8 dp; w8 (L / 2^8); w8 L] ++ (ck / 256) :: (ck mod 256) :: payload.
 Proof. reflexivity. Qed.
 
-(* UDP over IPv4, under the hypothesis that the computed checksum is not zero (see
-   udp_zero_checksum_refuted below) *)
-Theorem udp_frame_wf4_partial r data sp dp ttl c :
+(* UDP over IPv4, every datagram (since 723c609 also the 1 in 65535 whose checksum computes to
+   zero: the field then carries 0xffff, see udp_zero_checksum_sent_as_ffff) *)
+Theorem udp_frame_wf4 r data sp dp ttl c :
   let L := 8 + vsize data in
   rOffload r = false ->
   length (rLocal r) = 4%nat -> length (rRemote r) = 4%nat -> bytes_ok (rLocal r) -> bytes_ok (rRemote r) ->
   Rfc.src4_ok (rLocal r) = true ->
   0 <= sp < 65536 -> 0 <= dp < 65536 ->
   Forall bytes_ok data -> nonfinal_even data -> vsize data <= 65507 -> 1 <= ttl < 256 ->
-  xsum_of (rLocal r) (rRemote r) 17 L (udp_hdr sp dp L 0 ++ concat data) <> 0 ->
   exists hdr frame,
     send_udp r data sp dp = Some hdr /\
     ipv4_write r hdr data 17 ttl c = Some (frame, bucket_after (20 + L) c) /\
@@ -1065,12 +1129,13 @@ Theorem udp_frame_wf4_partial r data sp dp ttl c :
     Rfc.view_ip4 frame = Rfc.mkIV (rLocal r) (rRemote r) 17 ttl (id_of (20 + L) c) (hdr ++ concat data) /\
     Rfc.view_udp (hdr ++ concat data) = Rfc.mkUV sp dp L (concat data).
 Proof.
-  intros L Hoff Ls Ld Bs Bd Hsrc Hsp Hdp Bdata Hev Hsz Httl Hnz.
+  intros L Hoff Ls Ld Bs Bd Hsrc Hsp Hdp Bdata Hev Hsz Httl.
   assert (Hvs : 0 <= vsize data) by (unfold vsize; lia).
   destruct (send_udp_flat r data sp dp Hoff Bs Bd ltac:(lia) ltac:(lia) Bdata Hev ltac:(lia)) as [Hsend Hu].
   fold L in Hsend, Hu.
   set (ck := xsum_of (rLocal r) (rRemote r) 17 L (udp_hdr sp dp L 0 ++ concat data)) in *.
-  set (hdr := udp_hdr sp dp L ck) in *.
+  destruct (udp_field_u16 ck Hu) as [Hfu Hfnz].
+  set (hdr := udp_hdr sp dp L (udp_field ck)) in *.
   assert (ELen : w16 (20 + Z.of_nat (length hdr) + vsize data) = 20 + L).
   { subst hdr. cbn [udp_hdr length]. unfold w16. change (2^16) with 65536. rewrite Z.mod_small; subst L; lia. }
   destruct (ipv4_write_flat r hdr data 17 ttl c Ls Ld Bs Bd) as (ckip & Hw & Huip & Hsumip).
@@ -1083,11 +1148,11 @@ Proof.
   assert (Hudp : Rfc.wf_udp false (Rfc.pseudo4 (rLocal r) (rRemote r) 17) (hdr ++ concat data) = true /\
                  Rfc.view_udp (hdr ++ concat data) = Rfc.mkUV sp dp L (concat data)).
   { subst hdr.
-    apply (wf_udp_dgram (Rfc.pseudo4 (rLocal r) (rRemote r) 17) sp dp ck (concat data)); try assumption.
+    apply (wf_udp_dgram (Rfc.pseudo4 (rLocal r) (rRemote r) 17) sp dp (udp_field ck) (concat data)); try assumption.
     - change (8 + Rfc.zlen (concat data)) with L. subst L. lia.
     - change (8 + Rfc.zlen (concat data)) with L. rewrite Ezl. rewrite udp_hdr_split. subst ck. rewrite udp_hdr_split.
       change (0 / 256) with 0. change (0 mod 256) with 0.
-      apply xsum_verifies4; try assumption; try lia; try (subst L; lia); try reflexivity; bytes_tac. }
+      apply xsum_verifies4_udp; try assumption; try lia; try (subst L; lia); try reflexivity; bytes_tac. }
   destruct Hudp as [Hwf_udp Hview].
   destruct (wf_ipv4_hdr false (20 + L) (w16 (fst (ipv4_next_id (20 + L) c))) ttl 17 ckip (rLocal r) (rRemote r)
               (hdr ++ concat data) Ls Ld Hsrc ltac:(rewrite Ezl; reflexivity) ltac:(subst L; lia)
@@ -1096,13 +1161,13 @@ Proof.
   split; [exact W|]. split; [exact V|exact Hview].
 Qed.
 
-(* the full statement is false: when the computed checksum is 0 the code transmits 0, which
-   RFC 768 reserves for "no checksum" (witness found by the harness: 10.0.0.1:4568 ->
-   10.0.0.2:5535, payload c4 60) *)
-Theorem udp_zero_checksum_refuted :
+(* the code before 723c609 ([send_udp_old]) violated the statement: when the computed checksum is 0
+   it transmitted 0, which RFC 768 reserves for "no checksum" (witness found by the harness:
+   10.0.0.1:4568 -> 10.0.0.2:5535, payload c4 60) *)
+Theorem udp_zero_checksum_old_refuted :
   exists r data sp dp ttl c hdr frame c',
     rOffload r = false /\ length (rLocal r) = 4%nat /\ Forall bytes_ok data /\ vsize data <= 65507 /\
-    send_udp r data sp dp = Some hdr /\ ipv4_write r hdr data 17 ttl c = Some (frame, c') /\
+    send_udp_old r data sp dp = Some hdr /\ ipv4_write r hdr data 17 ttl c = Some (frame, c') /\
     Rfc.wf_ipv4 false frame = false /\ Rfc.b16 hdr 6 = 0.
 Proof.
   exists (mkRoute [10;0;0;1] [10;0;0;2] [] [] false), [[196; 96]], 4568, 5535, 255, 0.
@@ -1110,6 +1175,20 @@ Proof.
   split; [reflexivity|]. split; [reflexivity|]. split; [repeat constructor; unfold is_byte; lia|].
   split; [vm_compute; discriminate|].
   split; [vm_compute; reflexivity|]. split; [vm_compute; reflexivity|]. split; vm_compute; reflexivity.
+Qed.
+
+(* the same datagram under the repaired code: the field is 0xffff and the frame is well-formed
+   (also the non-trivial instance of udp_frame_wf4 in which the substitution fires) *)
+Example udp_zero_checksum_sent_as_ffff :
+  let r := mkRoute [10;0;0;1] [10;0;0;2] [] [] false in
+  exists hdr frame c',
+    xsum_of (rLocal r) (rRemote r) 17 10 (udp_hdr 4568 5535 10 0 ++ [196; 96]) = 0 /\
+    send_udp r [[196; 96]] 4568 5535 = Some hdr /\ ipv4_write r hdr [[196; 96]] 17 255 0 = Some (frame, c') /\
+    Rfc.b16 hdr 6 = 65535 /\ Rfc.wf_ipv4 false frame = true.
+Proof.
+  cbv zeta. eexists. eexists. eexists.
+  split; [vm_compute; reflexivity|]. split; [vm_compute; reflexivity|]. split; [vm_compute; reflexivity|].
+  split; vm_compute; reflexivity.
 Qed.
 
 (* ====================================================================== IPv6 *)
@@ -1229,14 +1308,13 @@ Proof.
   split; [exact W|]. split; [exact V|exact Hview].
 Qed.
 
-Theorem udp_frame_wf6_partial r data sp dp ttl :
+Theorem udp_frame_wf6 r data sp dp ttl :
   let L := 8 + vsize data in
   rOffload r = false ->
   length (rLocal r) = 16%nat -> length (rRemote r) = 16%nat -> bytes_ok (rLocal r) -> bytes_ok (rRemote r) ->
   nth 0 (rLocal r) 0 <> 255 ->
   0 <= sp < 65536 -> 0 <= dp < 65536 ->
   Forall bytes_ok data -> nonfinal_even data -> vsize data <= 65527 -> 1 <= ttl < 256 ->
-  xsum_of (rLocal r) (rRemote r) 17 L (udp_hdr sp dp L 0 ++ concat data) <> 0 ->
   exists hdr frame,
     send_udp r data sp dp = Some hdr /\
     ipv6_write r hdr data 17 ttl = Some frame /\
@@ -1244,12 +1322,13 @@ Theorem udp_frame_wf6_partial r data sp dp ttl :
     Rfc.view_ip6 frame = Rfc.mkIV (rLocal r) (rRemote r) 17 ttl 0 (hdr ++ concat data) /\
     Rfc.view_udp (hdr ++ concat data) = Rfc.mkUV sp dp L (concat data).
 Proof.
-  intros L Hoff Ls Ld Bs Bd Hsrc Hsp Hdp Bdata Hev Hsz Httl Hnz.
+  intros L Hoff Ls Ld Bs Bd Hsrc Hsp Hdp Bdata Hev Hsz Httl.
   assert (Hvs : 0 <= vsize data) by (unfold vsize; lia).
   destruct (send_udp_flat r data sp dp Hoff Bs Bd ltac:(lia) ltac:(lia) Bdata Hev ltac:(lia)) as [Hsend Hu].
   fold L in Hsend, Hu.
   set (ck := xsum_of (rLocal r) (rRemote r) 17 L (udp_hdr sp dp L 0 ++ concat data)) in *.
-  set (hdr := udp_hdr sp dp L ck) in *.
+  destruct (udp_field_u16 ck Hu) as [Hfu Hfnz].
+  set (hdr := udp_hdr sp dp L (udp_field ck)) in *.
   assert (ELen : w16 (Z.of_nat (length hdr) + vsize data) = L).
   { subst hdr. cbn [udp_hdr length]. unfold w16. change (2^16) with 65536. rewrite Z.mod_small; subst L; lia. }
   pose proof (ipv6_write_flat r hdr data 17 ttl Ls Ld) as Hw. cbv zeta in Hw. rewrite ELen in Hw. change (w8 17) with 17 in Hw.
@@ -1261,11 +1340,11 @@ Proof.
   assert (Hudp : Rfc.wf_udp false (Rfc.pseudo6 (rLocal r) (rRemote r) 17) (hdr ++ concat data) = true /\
                  Rfc.view_udp (hdr ++ concat data) = Rfc.mkUV sp dp L (concat data)).
   { subst hdr.
-    apply (wf_udp_dgram (Rfc.pseudo6 (rLocal r) (rRemote r) 17) sp dp ck (concat data)); try assumption.
+    apply (wf_udp_dgram (Rfc.pseudo6 (rLocal r) (rRemote r) 17) sp dp (udp_field ck) (concat data)); try assumption.
     - change (8 + Rfc.zlen (concat data)) with L. subst L. lia.
     - change (8 + Rfc.zlen (concat data)) with L. rewrite Ezl. rewrite udp_hdr_split. subst ck. rewrite udp_hdr_split.
       change (0 / 256) with 0. change (0 mod 256) with 0.
-      apply xsum_verifies6; try assumption; try lia; try (subst L; lia); try reflexivity; bytes_tac. }
+      apply xsum_verifies6_udp; try assumption; try lia; try (subst L; lia); try reflexivity; bytes_tac. }
   destruct Hudp as [Hwf_udp Hview].
   destruct (wf_ipv6_hdr false L 17 ttl (rLocal r) (rRemote r) (hdr ++ concat data) Ls Ld Hsrc
               ltac:(rewrite Ezl; reflexivity) ltac:(subst L; lia) Httl ltac:(lia)) as [W V].
@@ -1607,11 +1686,11 @@ Proof.
 Qed.
 
 (* the Ethernet header of fdbased.WritePacket: destination = the route's remote link address,
-   source = the route's local link address when the route has a local address, else the
-   endpoint's own; EtherType = the network protocol; the packet follows unchanged *)
+   source = the route's local link address when the route carries one, else the endpoint's own
+   (since 8cee966); EtherType = the network protocol; the packet follows unchanged *)
 Theorem eth_write_frame r ep proto pkt :
   length (rRemoteLink r) = 6%nat -> 0 <= proto < 65536 ->
-  let src := match rLocal r with [] => ep | _ => rLocalLink r end in
+  let src := match rLocalLink r with [] => ep | _ => rLocalLink r end in
   length src = 6%nat ->
   exists f, eth_write r ep proto pkt = Some f /\
     Rfc.eth_dst f = rRemoteLink r /\ Rfc.eth_src f = src /\ Rfc.eth_type_of f = proto /\ skipn 14 f = pkt.
@@ -1626,15 +1705,34 @@ Proof.
   unfold w16, w8. change (2^16) with 65536. change (2^8) with 256. Z.div_mod_to_equations. lia.
 Qed.
 
-(* the known finding as a statement about the model: a route with a local address but no local
-   link address (the one ipv6 LinkAddressRequest builds) yields a zero source MAC *)
-Lemma eth_write_zero_src_refuted :
-  exists r ep proto pkt f, rLocal r <> [] /\ length ep = 6%nat /\ Rfc.all_eq 0 ep = false /\
-    eth_write r ep proto pkt = Some f /\ Rfc.eth_src f = [0; 0; 0; 0; 0; 0].
+(* consequence: the source address of every frame is a 6-byte address of the stack - the route's
+   or the endpoint's - whatever the route's network addresses are; in particular a route without a
+   local link address (both LinkAddressRequest routes) gives the endpoint's own address *)
+Theorem eth_write_src_own r ep proto pkt :
+  length (rRemoteLink r) = 6%nat -> 0 <= proto < 65536 -> length ep = 6%nat ->
+  rLocalLink r = [] \/ rLocalLink r = ep ->
+  exists f, eth_write r ep proto pkt = Some f /\
+    Rfc.eth_dst f = rRemoteLink r /\ Rfc.eth_src f = ep /\ Rfc.eth_type_of f = proto /\ skipn 14 f = pkt.
+Proof.
+  intros Ld Hp Le Hl.
+  assert (Es : match rLocalLink r with [] => ep | _ => rLocalLink r end = ep).
+  { destruct Hl as [-> | E]; [reflexivity|]. rewrite E. destruct ep; reflexivity. }
+  pose proof (eth_write_frame r ep proto pkt Ld Hp) as F. cbv zeta in F. rewrite Es in F. exact (F Le).
+Qed.
+
+(* the code before 8cee966 ([eth_write_old]) tested r.LocalAddress instead: a route with a local
+   address but no local link address (the one ipv6 LinkAddressRequest builds: fe80::1 ->
+   ff02::1:ff00:2, RemoteLinkAddress ff:ff:ff:ff:ff:ff) left with source MAC 00:00:00:00:00:00
+   although the endpoint's address is 02:00:00:00:00:01 *)
+Theorem eth_write_zero_src_old_refuted :
+  exists r ep proto pkt f, rLocal r <> [] /\ rLocalLink r = [] /\ length ep = 6%nat /\ Rfc.all_eq 0 ep = false /\
+    eth_write_old r ep proto pkt = Some f /\ Rfc.eth_src f = [0; 0; 0; 0; 0; 0] /\
+    (exists f', eth_write r ep proto pkt = Some f' /\ Rfc.eth_src f' = ep).
 Proof.
   exists (mkRoute [254;128;0;0;0;0;0;0;0;0;0;0;0;0;0;1] [255;2;0;0;0;0;0;0;0;0;0;1;255;0;0;2] [] [255;255;255;255;255;255] false),
          [2;0;0;0;0;1], 34525, [96]. eexists.
-  split; [discriminate|]. split; [reflexivity|]. split; [reflexivity|]. split; reflexivity.
+  split; [discriminate|]. split; [reflexivity|]. split; [reflexivity|]. split; [reflexivity|].
+  split; [reflexivity|]. split; [reflexivity|]. eexists. split; reflexivity.
 Qed.
 
 (* ====================================================================== examples *)
